@@ -916,6 +916,9 @@ fn c28_texts() -> Vec<String> {
         "%start S\n%nt_type A = crate::m::A\n%skip W\n%on Q %enter St\n%scanner St {\n  %on Q %enter INITIAL\n  %skip V\n}\n%%\nS: A { X } ;\nA: 'a' ;\nX: Q C Q | W ;\nQ: <INITIAL, St>'q' ;\nC: <St>'c' | <St> V ;\nV: <St>'v' ;\nW: 'w' ;\n".to_string(),
         // a non-terminal and a scanner state sharing one name; a user type alias named like a non-terminal
         "%start S\n%user_type A = crate::m::A\n%on Q %push X\n%scanner X {\n  %on Q %pop\n}\n%%\nS: X A ;\nX: Q B Q ;\nA: 'a' : A ;\nB: <X>'b' ;\nQ: <INITIAL, X>'q' ;\n".to_string(),
+        // identifier lists with several entries (%on A, B, C ... / %skip A, B, C) at top level and in a scanner block,
+        // and several scanner states in one <...> prefix
+        "%start S\n%skip W, V, U\n%on Q, R, P %enter St\n%scanner St {\n  %on R, Q, P %enter INITIAL\n  %skip U, W, V\n}\n%scanner Tt {\n  %on P %push St\n}\n%%\nS: { X } ;\nX: Q | R | P | W | V | U | C ;\nQ: <INITIAL, St>'q' ;\nR: <St, INITIAL>'r' ;\nP: <INITIAL, St, Tt>'p' ;\nC: <St>'c' ;\nW: <INITIAL, St>'w' ;\nV: <St, INITIAL>'v' ;\nU: <INITIAL, St>'u' ;\n".to_string(),
         // names that are prefixes / suffixes of each other
         "%start S\n%%\nS: A AA A1 ;\nA: 'a' ;\nAA: 'b' A ;\nA1: 'c' AA ;\n".to_string(),
     ]);
